@@ -8,7 +8,7 @@
 (* WriteTo(c, x)      = w_start: isClosed | contains: containsAddress | append: conn.addresses += x               *)
 (*                      | register: registerConnForAddress (takeover: removeAddress on the old owner) + send      *)
 (* connWorker         = d_read: read + canonicalise | d_lookup: addressMap | d_ufrag: (miss, STUN) USERNAME ufrag *)
-(*                      in the table of the source's family | d_enq: writePacket (dropped if closed)              *)
+(*                      in the table of the source's family | d_enq: writePacket (d_put: dropped if closed)              *)
 (* RemoveConnByUfrag  = r_unlist: delete from both tables and close the removed connections                        *)
 (*                      | r_unmap: delete the bindings of their address lists                                     *)
 (* GetConn, Close of a connection (+ its watcher goroutine's RemoveConnByUfrag), Close of the mux: one step each. *)
@@ -80,9 +80,12 @@ dLookup(S) == LET t == S.amap[Canon(S.dg.src)] IN
 dUfrag(S) == LET f == KeyFam(Canon(S.dg.src))
                  t == IF S.dg.kind \in Ufrags /\ f \in Fams THEN S.listed[f][S.dg.kind] ELSE 0 IN
     [S EXCEPT !.dt = t, !.dpc = IF t # 0 THEN "enq" ELSE "idle"]
-dEnq(S) == [S EXCEPT !.dpc = "idle",
+\* writePacket: a holder is borrowed from the pool and filled (private to the dispatcher), then - under the connection's lock -
+\* the closed test and the link into the queue are one step: a connection closed in between gets nothing
+dEnq(S) == [S EXCEPT !.dpc = "put"]
+dPut(S) == [S EXCEPT !.dpc = "idle",
                      !.q[S.dt] = IF S.closed[S.dt] THEN @ ELSE Append(@, [n |-> S.dg.n, src |-> S.dg.src])]
-dStep(S) == CASE S.dpc = "lookup" -> dLookup(S) [] S.dpc = "ufrag" -> dUfrag(S) [] S.dpc = "enq" -> dEnq(S) [] OTHER -> S
+dStep(S) == CASE S.dpc = "lookup" -> dLookup(S) [] S.dpc = "ufrag" -> dUfrag(S) [] S.dpc = "enq" -> dEnq(S) [] S.dpc = "put" -> dPut(S) [] OTHER -> S
 \* ---------------------------------------------------------------- RemoveConnByUfrag(u)
 CanRStart(S, u) == S.rpc = "idle" /\ S.removes < MaxRemoves
 rStart(S, u) == [S EXCEPT !.rpc = "unlist", !.ru = u, !.removes = @ + 1]
@@ -125,6 +128,7 @@ DRead(x, kd) == CanDRead(st) /\ st' = dRead(st, x, kd)
 DLookup == st.dpc = "lookup" /\ st' = dLookup(st)
 DUfrag == st.dpc = "ufrag" /\ st' = dUfrag(st)
 DEnq == st.dpc = "enq" /\ st' = dEnq(st)
+DPut == st.dpc = "put" /\ st' = dPut(st)
 RStart(u) == CanRStart(st, u) /\ st' = rStart(st, u)
 RUnlist == st.rpc = "unlist" /\ st' = rUnlist(st)
 RUnmap == st.rpc = "unmap" /\ st' = rUnmap(st)
@@ -132,7 +136,7 @@ CloseConn(c) == CanCloseConn(st, c) /\ st' = closeConn(st, c)
 CloseMux == MuxClose /\ ~st.muxClosed /\ st' = closeMux(st)
 Next == \/ \E u \in Ufrags, f \in Fams : GetConn(u, f)
         \/ \E w \in Writers : (\E c \in Conns, x \in Srcs : WStart(w, c, x)) \/ WCheck(w) \/ WContains(w) \/ WAppend(w) \/ WRegister(w)
-        \/ (\E x \in Srcs, kd \in Kinds : DRead(x, kd)) \/ DLookup \/ DUfrag \/ DEnq
+        \/ (\E x \in Srcs, kd \in Kinds : DRead(x, kd)) \/ DLookup \/ DUfrag \/ DEnq \/ DPut
         \/ (\E u \in Ufrags : RStart(u)) \/ RUnlist \/ RUnmap
         \/ (\E c \in Conns : CloseConn(c)) \/ CloseMux
 Spec == Init /\ [][Next]_st
@@ -140,7 +144,7 @@ Spec == Init /\ [][Next]_st
 \* ================================================================ sequential model: one action = one whole operation
 Idle(S) == S.dpc = "idle" /\ S.rpc = "idle" /\ \A w \in Writers : S.wpc[w] = "idle"
 W4(S, w) == wStep(wStep(wStep(wStep(S, w), w), w), w)
-D3(S) == dStep(dStep(dStep(S)))
+D3(S) == dStep(dStep(dStep(dStep(S))))   \* lookup, ufrag, enq, put
 R2(S) == rStep(rStep(S))
 \* the datagram is read by the connection's user right away: the queue does not grow, datagrams are not counted
 Target(S, x, kd) == LET S1 == D3(dRead(S, x, kd)) IN
